@@ -184,3 +184,11 @@ def config(vc):
     lla = seen["lla"]
     vc.ensure("O-C11-config", vc.And(out == "dyn", made["jd"] == "JD0", vc.eq(made["x"], site),
                                       vc.eq(lla[0], lat * vc.pi / 180), vc.eq(lla[1], lon * vc.pi / 180), vc.eq(lla[2], alt)))
+
+
+# the facility's start instant and stored position rest on the calendar decomposition (C05 cal / roundtrip) and on lla2ecef (C04 lla_fwd): those contracts are
+# re-checked in this property's own run
+from pyvc.harness import share as _share  # noqa: E402
+_share("C05", "cal", "C11")
+_share("C05", "roundtrip", "C11")
+_share("C04", "lla_fwd", "C11")
